@@ -295,6 +295,17 @@ func runC14live(t *vf.T, c c14live) {
 	var granted []*c14grant
 	ledger := map[string]int{} // client-side load per machine: never above the manager's true load
 	capOf := mgr.MachProcs()
+	// the capacity itself, stated independently in integers: the max-load share of the machine's
+	// procs, rounded down, at least one
+	wantCap := c.MachProcs * int(c.MaxLoad*100+0.5) / 100
+	if wantCap < 1 {
+		wantCap = 1
+	}
+	if capOf != wantCap {
+		t.Violate(sig+" capacity-differs-from-max-load-share", fmt.Sprintf("the manager gives machines of %d procs a task capacity of %d at max load %.2f; the max-load share, rounded down and at least one, is %d", c.MachProcs, capOf, c.MaxLoad, wantCap))
+		return
+	}
+	t.Count("capacities_checked_against_max_load_share", 1)
 	maxNeed, killed := 0, 0
 	recvAll := func(d time.Duration) {
 		for i := 0; i < len(pending); {
@@ -413,6 +424,13 @@ func runC14live(t *vf.T, c c14live) {
 		lim = c.MaxP
 	}
 	allowed := (lim+capOf-1)/capOf + lost
+	if c.MachProcs*int(c.MaxLoad*100+0.5)/100 < 1 {
+		// a max-load share below one proc: a task takes a whole machine, and the parallelism limit
+		// counts the machine's procs (docs/parallelism.md)
+		if byP := (c.MaxP+c.MachProcs-1)/c.MachProcs + lost; byP < allowed {
+			allowed = byP
+		}
+	}
 	if maxNeed > 0 && started > allowed {
 		t.Violate(sig+" too-many-machines", fmt.Sprintf("%d machines were started; peak demand %d procs, parallelism %d, %d procs per machine, %d machines lost justify at most %d", started, maxNeed, c.MaxP, capOf, lost, allowed))
 	}
@@ -517,7 +535,7 @@ func runC14(r *vf.Runner) {
 	}
 	ops := []string{"offer", "offer", "offer", "recv", "cancel", "done-ok", "done-ok", "done-remote", "done-transport", "kill", "recv"}
 	for i := 0; i < n; i++ {
-		c := c14live{Kind: "live", MachProcs: rnd.Pick(1, 2, 4), MaxLoad: []float64{0.3, 0.5, 1}[rnd.Intn(3)], MaxP: rnd.Pick(1, 3, 8)}
+		c := c14live{Kind: "live", MachProcs: rnd.Pick(1, 2, 3, 4), MaxLoad: []float64{0.3, 0.5, 0.9, 0.95, 1}[rnd.Intn(5)], MaxP: rnd.Pick(1, 3, 8)}
 		for j, k := 0, 3+rnd.Intn(25); j < k; j++ {
 			c.Events = append(c.Events, c14ev{Op: ops[rnd.Intn(len(ops))], Prio: rnd.Intn(3), Procs: rnd.Intn(4), Pick: rnd.Intn(8)})
 		}
